@@ -18,10 +18,10 @@ type vStoreService struct{ s *vStore }
 type vCoreStore struct{ s *vStore }
 
 func (v vStoreService) OpenKVStore(ctx context.Context) store.KVStore { return vCoreStore{v.s} }
-func (c vCoreStore) Get(key []byte) ([]byte, error)                    { return c.s.Get(key), nil }
-func (c vCoreStore) Has(key []byte) (bool, error)                      { return c.s.Has(key), nil }
-func (c vCoreStore) Set(key, value []byte) error                       { c.s.Set(key, value); return nil }
-func (c vCoreStore) Delete(key []byte) error                           { c.s.Delete(key); return nil }
+func (c vCoreStore) Get(key []byte) ([]byte, error)                   { return c.s.Get(key), nil }
+func (c vCoreStore) Has(key []byte) (bool, error)                     { return c.s.Has(key), nil }
+func (c vCoreStore) Set(key, value []byte) error                      { c.s.Set(key, value); return nil }
+func (c vCoreStore) Delete(key []byte) error                          { c.s.Delete(key); return nil }
 func (c vCoreStore) Iterator(start, end []byte) (store.Iterator, error) {
 	return c.s.Iterator(start, end), nil
 }
@@ -35,9 +35,9 @@ func (nfAccount) AddressCodec() address.Codec { return addresscodec.NewBech32Cod
 
 type nfEnv struct {
 	*vEnv
-	k                       Keeper
+	k                        Keeper
 	creator, owner, stranger sdk.AccAddress
-	mintR, updR             bool
+	mintR, updR              bool
 }
 
 const (
@@ -115,7 +115,9 @@ func VerifC14_Edit() {
 	verifExpect("edited", "refused")
 	e := newNfEnv()
 	actor, who := e.actor("actor")
-	pick := func(n string, cur string) string { return []string{types.DoNotModify, cur, "new-" + n}[verifChoice(n, 3)] }
+	pick := func(n string, cur string) string {
+		return []string{types.DoNotModify, cur, "new-" + n}[verifChoice(n, 3)]
+	}
 	msg := &types.MsgEditNFT{Id: nfToken, DenomId: nfClass, Name: pick("name", "n"), URI: pick("uri", "uri"), UriHash: types.DoNotModify, Data: []string{types.DoNotModify, `{"k":"v"}`}[verifChoice("data", 2)], Sender: actor.String()}
 	verifAssume(msg.ValidateBasic() == nil)
 	before, _ := e.k.GetNFT(e.ctx, nfClass, nfToken)
